@@ -5,7 +5,7 @@ from ._nodecommon import *
 
 ID = "C10"
 LEAN_MODULES = ["VpnCloud.Proofs.C10"]
-THEOREMS = []
+THEOREMS = ["VpnCloud.Proofs.C10." + n for n in ("iface_read_no_iface_write", "iface_read_only_to_peers", "net_never_relays")]
 RULE = ("suite node: frames (destination claimed / learned / unknown / broadcast / own address / garbage) injected at any node of 2-5 node meshes in router, switch, hub and normal mode with "
         "tun and tap dissectors; per step: wire datagrams caused by an interface read = number of selected peers (by the node's own dumped table), wire datagrams caused by a received payload = 0, "
         "interface writes = deliveries of byte-identical payload of an established peer; distinct non-trivial = distinct (op, #datagrams out, #interface writes, #peers, #pending, mutation kind)")
